@@ -292,6 +292,18 @@ func simpler(s refstr.Spec) []refstr.Spec {
 	}
 	add(func(t *refstr.Spec) { t.Width = -1 })
 	add(func(t *refstr.Spec) { t.Prec = -1 })
+	for _, w := range widths { // a smaller width / precision of the grid
+		if w >= 0 && w < s.Width {
+			w := w
+			add(func(t *refstr.Spec) { t.Width = w })
+		}
+	}
+	for _, p := range precs {
+		if p >= 0 && p < s.Prec {
+			p := p
+			add(func(t *refstr.Spec) { t.Prec = p })
+		}
+	}
 	add(func(t *refstr.Spec) { t.Minus = false })
 	add(func(t *refstr.Spec) { t.Plus = false })
 	add(func(t *refstr.Spec) { t.Space = false })
@@ -372,6 +384,17 @@ func fmtFamily(name string, convs []byte, nargs int, argOf func(k int) (rt.Value
 			o := core.Outcome{Sig: core.Hash64(v.sig), NonTrivial: !v.skipped}
 			if v.clause != "" {
 				m := minimise(s, arg, v.clause, w)
+				// the first value of the family's list that fails the reduced
+				// specification in the same way, and not already a simpler one,
+				// names the defect
+				for k2 := 0; k2 < k; k2++ {
+					a2, n2 := argOf(k2)
+					w2 := want(m.Conv, k2)
+					if v2 := fmtCheck(m, a2, w2); !v2.skipped && v2.clause == v.clause && minimise(m, a2, v.clause, w2) == m {
+						argName = n2
+						break
+					}
+				}
 				o.Viol = &core.Violation{Key: fmt.Sprintf("format spec=%q v=%s clause=%s", m.String(), argName, v.clause),
 					Detail: fmt.Sprintf("string.format(%q, %s)\n%s", s.String(), argName, v.detail)}
 			}
